@@ -4,6 +4,7 @@ import WfModel.Drv.Scheme
 import WfModel.Drv.Ctx
 import WfModel.Drv.Search
 import WfModel.Drv.Wild
+import WfModel.Drv.Rx
 import WfModel.Drv.PanicCatcher
 import WfModel.Drv.CApi
 import WfModel.Drv.CtxSerde
@@ -17,7 +18,7 @@ open WfModel
 /-- stateless handlers (one self-contained request per line) -/
 def handlers : List (List String → Option String) :=
   [ Drv.RangeSet.handle, Drv.TyEnc.handle, Drv.Scheme.handle, Drv.Ctx.handle,
-    Drv.Search.handle, Drv.Wild.handle, Drv.PanicCatcher.handle, Drv.CApi.handle,
+    Drv.Search.handle, Drv.Rx.handle, Drv.Wild.handle, Drv.PanicCatcher.handle, Drv.CApi.handle,
     Drv.CtxSerde.handle ]
 
 def dispatch (st : Drv.Core.St) (ws : List String) : Drv.Core.St × String :=
